@@ -283,6 +283,22 @@ def r4_context_offset(ck, cx):
                   detail='second-arg ' + U(call.args[1]), loc=cx.floc(f, calls[0].node))
         ck.ob('R4', f.qn, 'both zero_mode polarities analysed', pols == {True, False}, detail='polarities %s' % sorted(pols), loc=cx.floc(f))
     ck.floor('R4', seen, 6, 'method x zero_mode instances')
+    # the option itself: an explicit zero_mode (False included) is what the context uses
+    init = cx.method(c, '__init__')
+    nb = 0
+    for p in cx.enum(init, c, max_depth=0):
+        annotate(p, heap=False)
+        for ev in p.ev:
+            if ev.kind == 'assign' and U(ev.a) == 'self.zero_mode':
+                nb += 1
+                v = getattr(ev, '_sub', None) or ev.node.value
+                lossy = (isinstance(v, ast.BoolOp) and isinstance(v.op, ast.Or) and not (isinstance(v.values[-1], ast.Constant) and not v.values[-1].value)) or \
+                    (isinstance(v, ast.IfExp) and not (isinstance(v.test, ast.Compare) and 'None' in U(v.test)) and 'kwargs' in U(v.test))
+                ck.ob('R4', init.qn, 'an explicit zero_mode argument (False included) overrides the default', not lossy,
+                      detail='zero-mode-falsy-overridden', loc=cx.floc(init, ev.node),
+                      message='ModbusSlaveContext takes zero_mode from `%s`: an explicit zero_mode=False is replaced by the library default, '
+                              'so with Defaults.ZeroMode = True the one-based offset cannot be selected' % U(ev.node.value))
+    ck.floor('R4', nb, 1, 'zero_mode bindings in __init__')
     # fx mapper
     ic = cx.idx.cls('pymodbus.interfaces.IModbusSlaveContext')
     try:
@@ -452,12 +468,13 @@ def r6_table_isolation(ck, cx, rule='R6'):
                 continue        # supplied by the application
             if isinstance(d, ast.Call):
                 shared_in_loop = loop_depth_at.get(at, 0) < loop_depth_at.get(i, 0)
-                prev = origins.get(id(d))
+                okey = at            # the event that evaluated the call: the store assignment itself or the local it was bound to
+                prev = origins.get(okey)
                 ck.ob(rule, f.qn, 'default block of store[%s] is created for this entry alone' % key, prev is None and not shared_in_loop,
                       detail='shared-default %s' % txt[:50], loc=cx.floc(f, ev.node),
                       message='ModbusSlaveContext: store[%s] and store[%s] default to the same object `%s`: a write to one table changes the other'
                               % (key, prev if prev is not None else 'the other loop iterations', txt[:60]))
-                origins.setdefault(id(d), key)
+                origins.setdefault(okey, key)
                 # the call must produce a new object: a class, or a classmethod / function returning a constructor call
                 fresh = _fresh_call(cx, d, c)
                 if fresh is False:
